@@ -506,6 +506,9 @@ theorem plain_flatMap_unwrap {l : List Op} (hl : ∀ o ∈ l, PlainOp' o) : ∀ 
 /-- operation lists of plain, well-formed operations that wrap no wrappers -/
 def PlainSeq' (seq : List Op) : Prop := ∀ op ∈ seq, OpWF op ∧ PlainOp' op
 
+theorem PlainSeq'.plain {seq : List Op} (h : PlainSeq' seq) : ∀ op ∈ seq, OpWF op ∧ PlainOp op :=
+  fun op hop => ⟨(h op hop).1, (h op hop).2.toPlainOp⟩
+
 theorem wf_flatMap_unwrap {l : List Op} (hl : ∀ o ∈ l, OpWF o) : ∀ o ∈ l.flatMap Op.unwrap, OpWF o := by
   intro o ho
   obtain ⟨w, hw, how⟩ := List.mem_flatMap.mp ho
